@@ -746,7 +746,27 @@ bool run_form(std::string const& form, json const& x, json& ret)
     } else if (form == "nf_fn") {
         auto n = lib::not_fn(isodd);
         ret.push_back(n(a) ? 1 : 0);
-    } else if (form == "ipf_sig3") {
+    }
+#if !defined(VH_STD) || defined(__cpp_lib_forward_like)
+    else if (form.rfind("fl", 0) == 0) {
+        // forward_like<Owner>(member): category of the result
+        auto go = [&](auto& m) {
+            if constexpr (requires { lib::forward_like<S&>(m); }) {
+                bool k = form.rfind("flk", 0) == 0;
+                std::string o = form.substr(k ? 4 : 3);
+                ret.push_back(m);
+                if (o == "l") { ret.push_back(cat<decltype(lib::forward_like<S&>(m))>()); }
+                else if (o == "c") { ret.push_back(cat<decltype(lib::forward_like<S const&>(m))>()); }
+                else if (o == "r") { ret.push_back(cat<decltype(lib::forward_like<S&&>(m))>()); }
+                else { ret.push_back(cat<decltype(lib::forward_like<S const&&>(m))>()); }
+            } else { ok = false; }
+        };
+        int mm        = a;
+        int const mk  = a;
+        if (form.rfind("flk", 0) == 0) { go(mk); } else { go(mm); }
+    }
+#endif
+    else if (form == "ipf_sig3") {
         W3 w(P2{c});
         ret.push_back(w(a, b, std::move(d)));
     } else if (form == "ipf_sig3_copy") {
